@@ -62,6 +62,9 @@ def _is_interesting(crate, body, index, depth=0, seen=None):
     for i in range(1, body.arg_count + 1):
         if body.ltys(i).startswith("std::ops::ControlFlow<"):
             return True
+    # the last step of an impl: (accumulated error, how to build the value) -> Result
+    if body.ltys(0).startswith("std::result::Result<") and any(body.ltys(i).startswith("std::option::Option<") for i in range(1, body.arg_count + 1)):
+        return True
     return False
 
 
@@ -408,6 +411,25 @@ def _closure_of(local, sdefs, hops=8):
     return None
 
 
+def _fnitem_of(local, sdefs, hops=8):
+    """follow moves / borrows of a single-definition local back to the function item constant that it is"""
+    l = local
+    for _ in range(hops):
+        rv = sdefs.get(l)
+        if rv is None:
+            return None
+        if rv["k"] == "use" and rv["op"]["k"] == "const" and "fn" in rv["op"]:
+            return rv["op"]
+        if rv["k"] == "use" and rv["op"]["k"] in ("move", "copy") and not rv["op"]["place"]["p"]:
+            l = rv["op"]["place"]["l"]
+            continue
+        if rv["k"] == "ref" and (not rv["place"]["p"] or (len(rv["place"]["p"]) == 1 and rv["place"]["p"][0]["k"] == "deref")):
+            l = rv["place"]["l"]
+            continue
+        return None
+    return None
+
+
 def _inline_closure_calls(crate, d, index, used):
     """`add(&mut collection, value)` where `add` is a helper's closure parameter: after the helper was expanded the
     closure is a known aggregate of the caller, so its body can stand at the call (parameters: the environment, then
@@ -429,15 +451,26 @@ def _inline_closure_calls(crate, d, index, used):
             if not any(x in (fn.get("full") or "") for x in ("std::ops::Fn", "std::ops::FnMut", "std::ops::FnOnce")):
                 continue
             a0, a1 = t["args"]
-            if a0["k"] not in ("move", "copy") or a0["place"]["p"] or a1["k"] not in ("move", "copy") or a1["place"]["p"]:
+            if a0["k"] not in ("move", "copy") or a0["place"]["p"]:
+                continue
+            unit_args = a1["k"] == "const"        # `f()`: the argument tuple is the unit constant
+            if not unit_args and (a1["k"] not in ("move", "copy") or a1["place"]["p"]):
                 continue
             clo = _closure_of(a0["place"]["l"], sdefs)
             if clo is None:
+                fnitem = _fnitem_of(a0["place"]["l"], sdefs)
+                targs = {"k": "agg", "ak": "tuple", "ops": []} if unit_args else sdefs.get(a1["place"]["l"])
+                if fnitem is not None and targs is not None and targs["k"] == "agg" and targs.get("ak") == "tuple":
+                    # a function item handed around as a value (`Vec::push`, `Some`, `Box::new`): call it directly
+                    t["func"] = copy.deepcopy(fnitem)
+                    t["args"] = [copy.deepcopy(o) for o in targs["ops"]]
+                    t["devirtualised"] = True
+                    changed = True
                 continue
             cbody = index.get(clo.get("path"))
             if cbody is None or len(cbody.blocks) > MAX_BLOCKS:
                 continue
-            targs = sdefs.get(a1["place"]["l"])
+            targs = {"k": "agg", "ak": "tuple", "ops": []} if unit_args else sdefs.get(a1["place"]["l"])
             if targs is None or targs["k"] != "agg" or targs.get("ak") != "tuple" or len(targs["ops"]) != cbody.arg_count - 1:
                 continue
             loff = len(d["locals"])
